@@ -19,7 +19,26 @@ def run(chk):
     rr.check_invariants(chk, dict(NSync=2, NLua=2, NAi=1) if quick else dict(NSync=3, NLua=2, NAi=2), "C11")
     scns = rr.gen_scenarios(chk, dict(NSync=3, NLua=1, NAi=1) if quick else dict(NSync=4, NLua=1, NAi=1), "C11")
     chk.exhaustive = True
-    items = rr.replay(chk, scns, "c11-", trace_sample=120 if quick else 1200, sevmix=True)
+    items = rr.replay(chk, scns, "c11-", trace_sample=60 if quick else 1200, sevmix=True)
+    # several diagnostics with the same code at the same range (one per unsatisfied reference) all appear
+    mcases = []
+    for k, refs in enumerate([":n1, :n2", ":n1, :n1, other.py:n3", "f2.py:x,:y,:z,:y"]):
+        nrefs = refs.count(",") + 1
+        text = '# <block name="src%d" affects="%s" keep-unique>\ndup\ndup\n# </block>\n' % (k, refs)
+        mcases.append({"id": "multi%d" % k, "files": {"m.py": text}, "args": [], "terminal": False, "_n": nrefs,
+                       "diff": "diff --git a/m.py b/m.py\n--- a/m.py\n+++ b/m.py\n@@ -2 +2 @@\n-old\n+dup\n"})
+    mres = vlib.run_cli([{k: v for k, v in c.items() if k != "_n"} for c in mcases])
+    for c in mcases:
+        r = mres[c["id"]]
+        chk.count(nontrivial=True)
+        ds = [d for d in (r.get("report") or {}).get("m.py", [])]
+        na = sum(1 for d in ds if d["code"] == "affects")
+        nu = sum(1 for d in ds if d["code"] == "keep-unique")
+        if r["outcome"] != "ok" or na != c["_n"] or nu != 1 or r["exit"] != 1:
+            chk.violation("a block with %d unsatisfied affects references and a duplicate line: %d affects and %d keep-unique "
+                          "diagnostics reported (every violation must appear exactly once)" % (c["_n"], na, nu),
+                          {"concrete": {k: v for k, v in c.items() if k != "_n"},
+                           "observed": {k: r.get(k) for k in ("outcome", "exit", "report")}})
     # `list` prints the selected blocks as one JSON object on stdout and exits 0, whatever the rules say
     sids = sorted(items)
     chk.rng.shuffle(sids)
